@@ -148,8 +148,8 @@ def op_features(schema, op):
             feats.add("resolver-under-nested-list")
         if f["is_resolver"] and f["in_member_fragment"]:
             feats.add("resolver-in-member-fragment")
-        if f["is_requires"] and len(rep_types(op)) > 1:
-            feats.add("requires-mixed-representations")
+        if (f["is_requires"] or f["is_resolver"]) and len(rep_types(op)) > 1:
+            feats.add("mixed-representations")
         if f["in_resolver"] and s["alias"] and any(x["name"] == s["name"] and not x["alias"] for x in flat_fields(f["siblings"])):
             feats.add("aliased-duplicate-in-resolver-selection")
         if f["in_resolver"] and f["is_resolver"]:
@@ -163,7 +163,7 @@ def err_context(schema, op, err):
     _, tn, fn = err["c"]
     why = err["why"]
     if why == "error-response":
-        for k in ("resolver-under-nested-list", "requires-mixed-representations", "resolver-in-member-fragment", "nested-resolver"):
+        for k in ("resolver-under-nested-list", "mixed-representations", "resolver-in-member-fragment", "nested-resolver"):
             if k in feats:
                 return k
         return "plain"
@@ -173,8 +173,8 @@ def err_context(schema, op, err):
             here.append((s, ptn, f))
     # errors reported at an abstract / entity field are about the keys of its children
     if why in ("keys-match-no-possible-type", "typename-missing") or fn == "_entities":
-        if fn == "_entities" and "requires-mixed-representations" in feats:
-            return "requires-mixed-representations"
+        if fn == "_entities" and "mixed-representations" in feats:
+            return "mixed-representations"
         if "resolver-under-nested-list" in feats:
             return "resolver-under-nested-list"
         if "resolver-in-member-fragment" in feats:
@@ -192,8 +192,8 @@ def err_context(schema, op, err):
         for s, ptn, f in here:
             if f["in_resolver"]:
                 return "aliased-duplicate-in-resolver-selection"
-    if tn in rep_types(op) and "requires-mixed-representations" in feats:
-        return "requires-mixed-representations"
+    if tn in rep_types(op) and "mixed-representations" in feats:
+        return "mixed-representations"
     if "resolver-under-nested-list" in feats and any(f["under_nested_list"] for _, _, f in here):
         return "resolver-under-nested-list"
     return "plain"
@@ -334,15 +334,33 @@ def probe_cases(seed):
     return cases
 
 
-def run_driver(ctx, binary, cases, sdl_file, name):
-    cp = ctx.path(name + ".cases.ndjson")
-    op = ctx.path(name + ".obs.ndjson")
-    lib.write_ndjson(cp, cases)
-    ctx.run_bin(binary, ["-in", cp, "-out", op, "-sdl", sdl_file], timeout=3000)
-    obs = lib.read_ndjson(op)
-    if len(obs) != len(cases):
-        raise lib.Inconclusive("driver returned %d observations for %d cases" % (len(obs), len(cases)))
-    return obs
+class Store:
+    """random access to the lines of an NDJSON file by id (lines start with {"id":"..."); nothing is kept in memory
+    but the offsets"""
+
+    def __init__(self, path):
+        self.path = path
+        self.off = {}
+
+    def add(self, ident, offset):
+        self.off[ident] = offset
+
+    def get(self, ident):
+        if ident not in self.off:
+            return None
+        with open(self.path, "rb") as f:
+            f.seek(self.off[ident])
+            return json.loads(f.readline())
+
+    def lines(self):
+        with open(self.path, "rb") as f:
+            while True:
+                off = f.tell()
+                line = f.readline()
+                if not line:
+                    return
+                if line.strip():
+                    yield off, line
 
 
 def replay_obj(case, o, base_case=None, base_obs=None, extra=None):
@@ -358,126 +376,153 @@ def replay_obj(case, o, base_case=None, base_obs=None, extra=None):
     return r
 
 
-def validate(ctx, schema, cases, obs, name):
-    """TLC trace validation of all 'ok' observations; returns (#lines accepted, #lines with errors)."""
-    by_id = {c["id"]: c for c in cases}
-    obs_by_id = {o["id"]: o for o in obs}
-    base_of = {}
-    cur = None
-    for c in cases:
-        if c["role"] == "base":
-            cur = c["id"]
-            base_of[c["id"]] = c["id"]
-        else:
-            base_of[c["id"]] = cur
-            if c["role"] == "xbase":
-                cur = c["id"]
-    # groups whose base failed before producing JSON are dropped as a whole (the base failure is reported by caller)
-    dead = {c["group"] + "/" + c["lane"] for c in cases if c["role"] in ("base", "xbase") and obs_by_id[c["id"]]["stage"] != "ok"}
-    rows = []
-    for c in cases:
-        o = obs_by_id[c["id"]]
-        if o["stage"] != "ok" or (c["group"] + "/" + c["lane"]) in dead:
-            continue
-        role = c["role"]
-        if role == "xbase" and (c["group"] + "/raw") in dead:
-            role = "base"
-        rows.append({"id": c["id"], "role": role, "op": c["op"], "resp": o["resp"]})
-    if not rows:
-        return 0, 0
-    # TLC runs once per batch; batches are cut at group boundaries (a "base" line) to bound memory
-    chunks, cur_rows = [], []
-    for r in rows:
-        if r["role"] == "base" and len(cur_rows) >= CHUNK:
-            chunks.append(cur_rows)
-            cur_rows = []
-        cur_rows.append(r)
-    chunks.append(cur_rows)
-    ok_total = bad_total = 0
-    for ci, chunk in enumerate(chunks):
-        ok, bad = validate_chunk(ctx, schema, by_id, obs_by_id, chunk, "%s-%d" % (name, ci))
-        ok_total += ok
-        bad_total += bad
-    return ok_total, bad_total
-
-
 CHUNK = 12000
 
 
-def validate_chunk(ctx, schema, by_id, obs_by_id, rows, name):
-    tp = ctx.path(name + ".trace.ndjson")
-    lib.write_ndjson(tp, rows)
-    r = ctx.tlc(CORE, "Trace_C20", "Trace_C20.cfg", workers=1, env={"TRACE": tp}, timeout=3000, deadlock=False,
-                count=False, tag="trace-validation-" + name, heap="8g")
-    if r.ok:
-        return len(rows), 0
-    if not r.violated and "TRACE_STUCK_AT_LINE" not in r.out:
-        print(r.out[-3000:])
-        raise lib.Inconclusive("trace validation failed in an unexpected way: %s" % r.error)
-    ctx.log("strict trace validation rejected (%s); enumerating every failing observation" % (r.violated or "stuck"))
-    d = ctx.tlc(CORE, "Trace_C20", "Trace_C20_diag.cfg", workers=1, env={"TRACE": tp}, timeout=3000, deadlock=False,
-                count=False, tag="trace-diagnosis-" + name, heap="8g")
-    if not d.ok:
-        print(d.out[-3000:])
-        raise lib.Inconclusive("diagnostic trace run failed: %s" % d.error)
-    if not d.printed:
-        raise lib.Inconclusive("strict run rejected the trace but the diagnostic run found no failing observation")
-    bad = 0
-    for rec in d.printed:
-        bad += 1
-        c = by_id[rec["id"]]
-        o = obs_by_id[rec["id"]]
-        bc = by_id.get(rec["against"]) if rec["against"] else None
-        bo = obs_by_id.get(rec["against"]) if rec["against"] else None
-        seen = set()
-        for rel in ("shape", "self", "agree"):
-            for e in rec[rel]:
-                if c.get("probe"):
-                    key = "probe:%s:%s:%s" % (c["probe"], rel, e["why"])
-                elif e["why"] == "error-response":
-                    key = "%s:error-response:%s:%s" % (err_context(schema, c["op"], e), err_class(first_error_message(o["raw"])), roots_of(c["op"]))
-                else:
-                    ctxs = {err_context(schema, c["op"], e)}
-                    if rel == "agree" and bc is not None:
-                        ctxs.add(err_context(schema, bc["op"], e))
-                    ctxs.discard("plain")
-                    cx = sorted(ctxs)[0] if ctxs else "plain"
-                    key = "%s:%s:%s:%s.%s" % (cx, rel, e["why"], e["c"][1], e["c"][2])
-                if key in seen:
-                    continue
-                seen.add(key)
-                what = "%s: %s at %s.%s (root field %s) — lane %s, steps %s; operation: %s; answer: %s" % (
-                    {"shape": "answer does not have the shape of the selection", "self": "one position selected twice carries two values",
-                     "agree": "a position common to base and reformulation changed its value"}[rel],
-                    e["why"], e["c"][1], e["c"][2], e["c"][0], c["lane"], json.dumps([s["a"] for s in c.get("steps", [])]),
-                    o["text"][:300], (o["raw"] or "")[:300])
-                if rel == "agree" and bo is not None:
-                    what += "; base operation: %s; base answer: %s" % (bo["text"][:300], (bo["raw"] or "")[:300])
-                ctx.violation(key, what, replay_obj(c, o, bc if rel == "agree" else None, bo if rel == "agree" else None,
-                                                    {"relation": rel, "error": e}))
-    return len(rows) - bad, bad
+class Batch:
+    """one run of the pipeline steps 3-5 over a stream of cases (constant memory)"""
 
+    def __init__(self, ctx, schema, binary, sdl_file, name):
+        self.ctx, self.schema, self.binary, self.sdl_file, self.name = ctx, schema, binary, sdl_file, name
+        self.cases = Store(ctx.path(name + ".cases.ndjson"))
+        self.obs = Store(ctx.path(name + ".obs.ndjson"))
+        self.n = 0
+        self.stages = collections.Counter()
+        self.steps_hist = collections.Counter()
+        self.distinct = set()
+        self.nontriv = set()
+        self.samples = []
+        self.accepted = 0
+        self.bad = 0
 
-def go_side(ctx, schema, cases, obs):
-    """observations that need no oracle"""
-    stages = collections.Counter()
-    for c, o in zip(cases, obs):
-        stages[o["stage"]] += 1
-        if o["stage"] == "ok":
-            continue
+    def write_cases(self, cases):
+        with open(self.cases.path, "wb") as f:
+            for c in cases:
+                self.cases.add(c["id"], f.tell())
+                f.write(json.dumps(c, separators=(",", ":")).encode() + b"\n")
+                self.n += 1
+                h = lib.sha([c["op"], c["lane"]])
+                self.distinct.add(h)
+                if c["role"] == "variant" and nontrivial(c["op"]):
+                    self.nontriv.add(h)
+                for st in c.get("steps") or []:
+                    self.steps_hist[st["a"]] += 1
+
+    def run(self):
+        ctx = self.ctx
+        ctx.run_bin(self.binary, ["-in", self.cases.path, "-out", self.obs.path, "-sdl", self.sdl_file], timeout=6000)
+        # ---- stream the observations: no-oracle checks, trace rows cut into batches at group boundaries
+        dead = set()
+        chunks = []
+        cur = None
+        cur_n = 0
+        nobs = 0
+        for off, line in self.obs.lines():
+            o = json.loads(line)
+            nobs += 1
+            self.obs.add(o["id"], off)
+            self.stages[o["stage"]] += 1
+            gl = o["group"] + "/" + o["lane"]
+            if o["stage"] != "ok":
+                self.go_side(self.cases.get(o["id"]), o)
+                if o["role"] in ("base", "xbase"):
+                    dead.add(gl)
+                continue
+            if gl in dead:
+                continue
+            role = o["role"]
+            if role == "xbase" and (o["group"] + "/raw") in dead:
+                role = "base"
+            if cur is None or (role == "base" and cur_n >= CHUNK):
+                if cur is not None:
+                    cur.close()
+                path = ctx.path("%s-%d.trace.ndjson" % (self.name, len(chunks)))
+                chunks.append([path, 0])
+                cur = open(path, "w")
+                cur_n = 0
+            cur.write(json.dumps({"id": o["id"], "role": role, "op": o["op"], "resp": o["resp"]}, separators=(",", ":")) + "\n")
+            cur_n += 1
+            chunks[-1][1] = cur_n
+            if role == "variant" and len(self.samples) < 4:
+                self.samples.append({"id": o["id"], "lane": o["lane"], "operation": o["text"], "sent": o["sent"], "answer": (o["raw"] or "")[:500]})
+        if cur is not None:
+            cur.close()
+        if nobs != self.n:
+            raise lib.Inconclusive("driver returned %d observations for %d cases" % (nobs, self.n))
+        # ---- TLC validation, one run per batch
+        for ci, (path, nrows) in enumerate(chunks):
+            ok, bad = self.validate_chunk(path, nrows, "%s-%d" % (self.name, ci))
+            self.accepted += ok
+            self.bad += bad
+
+    def go_side(self, c, o):
+        """observations that need no oracle"""
+        ctx, schema = self.ctx, self.schema
         if o["stage"] == "invalid":
             raise lib.Inconclusive("generator produced an operation gqlparser rejects (%s): %s" % (o["err"][:200], o["text"][:300]))
         if o["stage"] == "panic":
             msg = re.sub(r"0x[0-9a-f]+", "0x?", o["err"].splitlines()[0])[:120]
             key = "probe:%s:panic" % c["probe"] if c.get("probe") else "panic:%s:%s" % (msg, roots_of(c["op"]))
             ctx.violation(key, "panic in the gRPC datasource (%s) for operation %s" % (msg, o["text"][:300]), replay_obj(c, o))
-            continue
+            return
         # parse / normalize / plan / load error for an operation over covered fields
         feats = sorted(op_features(schema, c["op"])) or ["plain"]
         key = ("probe:%s:%s" % (c["probe"], o["stage"])) if c.get("probe") else "%s:%s-error:%s" % (feats[0], o["stage"], roots_of(c["op"]))
         ctx.violation(key, "%s failed for a valid operation over mapped fields: %s — operation %s (lane %s)" % (
             o["stage"], o["err"][:200], o["text"][:300], c["lane"]), replay_obj(c, o))
-    return stages
+
+    def validate_chunk(self, tp, nrows, name):
+        ctx, schema = self.ctx, self.schema
+        r = ctx.tlc(CORE, "Trace_C20", "Trace_C20.cfg", workers=1, env={"TRACE": tp}, timeout=3000, deadlock=False,
+                    count=False, tag="trace-validation-" + name, heap="6g")
+        if r.ok:
+            return nrows, 0
+        if not r.violated and "TRACE_STUCK_AT_LINE" not in r.out:
+            print(r.out[-3000:])
+            raise lib.Inconclusive("trace validation failed in an unexpected way: %s" % r.error)
+        ctx.log("strict trace validation rejected (%s); enumerating every failing observation" % (r.violated or "stuck"))
+        r.out = ""
+        d = ctx.tlc(CORE, "Trace_C20", "Trace_C20_diag.cfg", workers=1, env={"TRACE": tp}, timeout=3000, deadlock=False,
+                    count=False, tag="trace-diagnosis-" + name, heap="6g")
+        if not d.ok:
+            print(d.out[-3000:])
+            raise lib.Inconclusive("diagnostic trace run failed: %s" % d.error)
+        if not d.printed:
+            raise lib.Inconclusive("strict run rejected the trace but the diagnostic run found no failing observation")
+        bad = 0
+        for rec in d.printed:
+            bad += 1
+            c = self.cases.get(rec["id"])
+            o = self.obs.get(rec["id"])
+            bc = self.cases.get(rec["against"]) if rec["against"] else None
+            bo = self.obs.get(rec["against"]) if rec["against"] else None
+            seen = set()
+            for rel in ("shape", "self", "agree"):
+                for e in rec[rel]:
+                    if c.get("probe"):
+                        key = "probe:%s:%s:%s" % (c["probe"], rel, e["why"])
+                    elif e["why"] == "error-response":
+                        key = "%s:error-response:%s:%s" % (err_context(schema, c["op"], e), err_class(first_error_message(o["raw"])), roots_of(c["op"]))
+                    else:
+                        ctxs = {err_context(schema, c["op"], e)}
+                        if rel == "agree" and bc is not None:
+                            ctxs.add(err_context(schema, bc["op"], e))
+                        ctxs.discard("plain")
+                        cx = sorted(ctxs)[0] if ctxs else "plain"
+                        key = "%s:%s:%s:%s.%s" % (cx, rel, e["why"], e["c"][1], e["c"][2])
+                    if key in seen:
+                        continue
+                    seen.add(key)
+                    what = "%s: %s at %s.%s (root field %s) — lane %s, steps %s; operation: %s; answer: %s" % (
+                        {"shape": "answer does not have the shape of the selection", "self": "one position selected twice carries two values",
+                         "agree": "a position common to base and reformulation changed its value"}[rel],
+                        e["why"], e["c"][1], e["c"][2], e["c"][0], c["lane"], json.dumps([st["a"] for st in c.get("steps") or []]),
+                        o["text"][:300], (o["raw"] or "")[:300])
+                    if rel == "agree" and bo is not None:
+                        what += "; base operation: %s; base answer: %s" % (bo["text"][:300], (bo["raw"] or "")[:300])
+                    ctx.violation(key, what, replay_obj(c, o, bc if rel == "agree" else None, bo if rel == "agree" else None,
+                                                        {"relation": rel, "error": e}))
+        return nrows - bad, bad
 
 
 def nontrivial(op):
@@ -494,24 +539,20 @@ def do_replay(ctx, binary, sdl_file, schema):
     if case.get("base_case"):
         b = dict(case["base_case"])
         b["role"] = "base"
-        b["group"] = "replay"
         cases.append(b)
     c = dict(case["case"])
-    c["group"] = "replay"
-    if not cases:
-        c["role"] = "base"
-    else:
-        c["role"] = "variant"
+    c["role"] = "variant" if cases else "base"
     cases.append(c)
     for x in cases:
-        x.setdefault("steps", [])
-        x["steps"] = x["steps"] or []
-    obs = run_driver(ctx, binary, cases, sdl_file, "replay")
-    for o in obs:
+        x["group"] = "replay"
+        x["steps"] = x.get("steps") or []
+    b = Batch(ctx, schema, binary, sdl_file, "replay")
+    b.write_cases(cases)
+    b.run()
+    for x in cases:
+        o = b.obs.get(x["id"])
         ctx.log("replayed %s lane=%s stage=%s\n    operation: %s\n    answer:    %s %s" % (o["id"], o["lane"], o["stage"], o["text"], o["raw"], o["err"][:300]))
-    go_side(ctx, schema, cases, obs)
-    ok, bad = validate(ctx, schema, cases, obs, "replay")
-    ctx.coverage.update({"traces_validated_against_impl": ok, "evaluations": len(cases), "distinct_nontrivial": 0,
+    ctx.coverage.update({"traces_validated_against_impl": b.accepted, "evaluations": len(cases), "distinct_nontrivial": 0,
                          "rule": "replay of one stored case", "samples": [], "exhaustive": False})
 
 
@@ -548,48 +589,37 @@ def run(ctx):
     # ---- 2. generation ----------------------------------------------------------------------------------------
     g1 = ctx.tlc_must_pass(CORE, "Gen_C20", "Gen_C20_bfs.cfg" if quick else "Gen_C20_bfs_thorough.cfg", timeout=1500, deadlock=False, workers=8, tag="gen-bfs")
     bfs_groups = group_records(g1.printed)
-    nsim = 300 if quick else 4000
+    nsim = 500 if quick else 5000
     g2 = ctx.tlc_must_pass(CORE, "Gen_C20", "Gen_C20_sim.cfg", timeout=2400, deadlock=False, workers=1, simulate=nsim, depth=30,
                            seed=ctx.seed, tag="gen-simulate")
     sim_groups = group_records(g2.printed)
     if quick:
         bfs_sel = choose(bfs_groups, rng, 250, 6)
-        sim_sel = choose(sim_groups, rng, 300, 6)
+        sim_sel = choose(sim_groups, rng, 10 ** 9, 10 ** 9)
     else:
-        bfs_sel = choose(bfs_groups, rng, 6000, 4)
-        sim_sel = choose(sim_groups, rng, 4000, 6)
+        bfs_sel = choose(bfs_groups, rng, 10 ** 9, 3)
+        sim_sel = choose(sim_groups, rng, 10 ** 9, 10 ** 9)
     ctx.log("generated: bfs %d bases / %d pairs (chosen %d / %d); simulate %d bases / %d pairs (chosen %d / %d)" % (
         len(bfs_groups), sum(len(v["vars"]) for v in bfs_groups.values()), len(bfs_sel), sum(len(v["vars"]) for v in bfs_sel.values()),
         len(sim_groups), sum(len(v["vars"]) for v in sim_groups.values()), len(sim_sel), sum(len(v["vars"]) for v in sim_sel.values())))
-    cases = cases_of(bfs_sel, ctx.seed, "b") + cases_of(sim_sel, ctx.seed, "s")
-    pcases = probe_cases(ctx.seed)
-    # ---- 3. replay on the real datasource -----------------------------------------------------------------------
-    obs = run_driver(ctx, binary, cases, sdl_file, "gen")
-    pobs = run_driver(ctx, binary, pcases, sdl_file, "probes")
-    stages = go_side(ctx, schema, cases, obs)
-    pstages = go_side(ctx, schema, pcases, pobs)
-    ctx.log("driver stages: %s; probes: %s" % (dict(stages), dict(pstages)))
-    # ---- 4. validation ------------------------------------------------------------------------------------------
-    ok, bad = validate(ctx, schema, cases, obs, "gen")
-    pok, pbad = validate(ctx, schema, pcases, pobs, "probes")
-    ctx.log("trace validation: %d observations accepted, %d with errors; probes %d/%d" % (ok, bad, pok, pbad))
-    distinct = set()
-    nontriv = set()
-    steps_hist = collections.Counter()
-    for c in cases:
-        h = lib.sha([c["op"], c["lane"]])
-        distinct.add(h)
-        if c["role"] == "variant" and nontrivial(c["op"]):
-            nontriv.add(h)
-        for s in c["steps"]:
-            steps_hist[s["a"]] += 1
-    samples = []
-    for c, o in list(zip(cases, obs))[:400]:
-        if c["role"] == "variant" and len(samples) < 4:
-            samples.append({"id": c["id"], "lane": c["lane"], "steps": c["steps"], "operation": o["text"], "sent": o["sent"], "answer": (o["raw"] or "")[:500]})
+    g1.printed = g2.printed = None
+    del bfs_groups, sim_groups
+    # ---- 3./4./5. replay on the real datasource, no-oracle checks, TLC validation --------------------------------
+    gen = Batch(ctx, schema, binary, sdl_file, "gen")
+    gen.write_cases(cases_of(bfs_sel, ctx.seed, "b") + cases_of(sim_sel, ctx.seed, "s"))
+    del bfs_sel, sim_sel
+    gen.run()
+    pr = Batch(ctx, schema, binary, sdl_file, "probes")
+    pr.write_cases(probe_cases(ctx.seed))
+    pr.run()
+    ctx.log("driver stages: %s; probes: %s" % (dict(gen.stages), dict(pr.stages)))
+    ctx.log("trace validation: %d observations accepted, %d with errors; probes %d/%d" % (gen.accepted, gen.bad, pr.accepted, pr.bad))
+    ok, bad, pok, pbad = gen.accepted, gen.bad, pr.accepted, pr.bad
+    ncases, npcases = gen.n, pr.n
+    nontriv, distinct, steps_hist, stages, samples = gen.nontriv, gen.distinct, gen.steps_hist, gen.stages, gen.samples
     ctx.coverage.update({
         "traces_validated_against_impl": ok + pok,
-        "evaluations": len(cases) + len(pcases),
+        "evaluations": ncases + npcases,
         "distinct_nontrivial": len(nontriv),
         "distinct_operations_executed": len(distinct),
         "observations_with_errors": bad + pbad,
